@@ -220,9 +220,9 @@ func (l *Linter) lint(node ast.Node, ctx *context.Context) types.Type {
 	case *ast.SubroutineDeclaration:
 		return l.lintSubRoutineDeclaration(t, ctx)
 	case *ast.PenaltyboxDeclaration:
-		return l.lintPenaltyboxDeclaration(t)
+		return l.lintPenaltyboxDeclaration(t, ctx)
 	case *ast.RatecounterDeclaration:
-		return l.lintRatecounterDeclaration(t)
+		return l.lintRatecounterDeclaration(t, ctx)
 
 	// Statements
 	case *ast.BlockStatement:
@@ -326,7 +326,15 @@ func (l *Linter) lintVCL(vcl *ast.VCL, ctx *context.Context) types.Type {
 
 	// https://github.com/ysugimoto/falco/issues/50
 	// To support subroutine hoisting, add root statements to context firstly and lint each statements after that.
-	l.factoryRootDeclarations(statements, ctx)
+	// The diagnostics of this pass (duplicated declarations, invalid return types...) are located in
+	// the declarations as well, so the ignore comments of each declaration apply to them.
+	// The lint pass below applies all of the comments again from the beginning.
+	l.walkRootStatements(statements, func(s ast.Statement) {
+		l.ignore.SetupStatement(s.GetMeta())
+		defer l.ignore.TeardownStatement(s.GetMeta())
+		l.factoryRootDeclarations([]ast.Statement{s}, ctx)
+	})
+	l.ignore = &ignore{}
 
 	// Build call graph and infer scopes for user-defined subroutines
 	// This allows subroutines without @scope annotation to have their scope
@@ -335,6 +343,16 @@ func (l *Linter) lintVCL(vcl *ast.VCL, ctx *context.Context) types.Type {
 	l.inferSubroutineScopes(graph, ctx)
 
 	// Lint each statement/declaration logics
+	l.walkRootStatements(statements, func(s ast.Statement) {
+		l.lintStatement(s, ctx)
+	})
+
+	return types.NeverType
+}
+
+// walkRootStatements visits the root statements with the ignore comments
+// of the include statements they came from in effect
+func (l *Linter) walkRootStatements(statements []ast.Statement, visit func(s ast.Statement)) {
 	var savedRanges []ignoredRules // ignore ranges of the including files, see ignore.saveRange
 	for _, s := range statements {
 		// An include statement which is nested in an included module is registered before
@@ -344,15 +362,13 @@ func (l *Linter) lintVCL(vcl *ast.VCL, ctx *context.Context) types.Type {
 			l.ignore.SetupStatement(includes[i].GetMeta())
 			savedRanges = append(savedRanges, l.ignore.saveRange())
 		}
-		l.lintStatement(s, ctx)
+		visit(s)
 		for _, include := range l.rootIncludeLast[s] {
 			l.ignore.restoreRange(savedRanges[len(savedRanges)-1])
 			savedRanges = savedRanges[:len(savedRanges)-1]
 			l.ignore.TeardownStatement(include.GetMeta())
 		}
 	}
-
-	return types.NeverType
 }
 
 // lintSnippetVCL handles linting of VCL snippets (statements without subroutine wrapper).
